@@ -1,6 +1,9 @@
 /- driver for C20 (monitors and log files), Float instantiation of Model/Monitor -/
 import MysticVerif.Basic.Proto
 import MysticVerif.Model.Monitor
+import MysticVerif.Model.MonitorViews
+import MysticVerif.Model.MonitorHeap
+import MysticVerif.Model.MungeFormats
 
 namespace MysticVerif.DrvC20
 open MysticVerif MysticVerif.Mon
@@ -60,6 +63,51 @@ def pPair (p : PV Float × PV Float) : String := s!"(p {pPV p.1} {pPV p.2})"
 
 def pDump (m : M) : String :=
   s!"(d {pL (m.x.map pPV)} {pL (m.getY.map pPV)} {pL (m.id.map pOI)} {pNs m.info} {pOF m.k})"
+
+
+/-! ### tuple indices, views, verbose events (Model/MonitorViews) -/
+
+def parseSel : Val → Option Sel
+  | .list [.sym "i", v] => do pure (.int (← v.asInt?))
+  | .list [.sym "s", a, b, t] => do pure (.slice (← parseOptInt a) (← parseOptInt b) (← t.asInt?))
+  | .list (.sym "l" :: vs) => do pure (.list (← vs.mapM Val.asInt?))
+  | .list (.sym "p" :: vs) => do pure (.tup (← vs.mapM Val.asInt?))
+  | _ => none
+
+def pArr {α : Type} (p : α → String) : Arr α → String
+  | .d0 v => p v
+  | .d1 l => pL (l.map p)
+  | .d2 l => pL (l.map (fun r => pL (r.map p)))
+  | .d3 l => pL (l.map (fun q => pL (q.map (fun r => pL (r.map p)))))
+
+def Arr.mapF (f : Float → Float) : Arr Float → Arr Float
+  | .d0 v => .d0 (f v)
+  | .d1 l => .d1 (l.map f)
+  | .d2 l => .d2 (l.map (·.map f))
+  | .d3 l => .d3 (l.map (·.map (·.map f)))
+
+def pExL (r : Except Err (List (PV Float))) : String :=
+  match r with
+  | .ok l => pL (l.map pPV)
+  | .error e => pErr e
+
+def pView (r : Except Err (Option (List (List (List Float))))) : String :=
+  match r with
+  | .ok none => "none"
+  | .ok (some v) => pFsss v
+  | .error e => pErr e
+
+def parseOptNat : Val → Option (Option Nat)
+  | .sym "none" => some none
+  | .int i => if 0 ≤ i then some (some i.toNat) else none
+  | _ => none
+
+def pEv (e : VEv Float) : String :=
+  s!"({if e.isX then "x" else "y"} {e.gen} {pOI e.id} {pB e.best} {pPV e.val})"
+
+def parseOptPV : Val → Option (Option (PV Float))
+  | .sym "none" => some none
+  | v => do pure (some (← parsePV v))
 
 /-! ### the op interpreter: registers hold monitors -/
 
@@ -144,6 +192,45 @@ def stepOp (rs : Array M) : Val → Option (Array M × String)
   | .list [.sym "dump", r] => do
     let m ← getR rs r
     pure (rs, pDump m)
+  | .list [.sym "tidx", r, sels] => do
+    let m ← getR rs r
+    let sels ← (← sels.asList?).mapM parseSel
+    match m.tuple sels with
+    | .error e => pure (rs, pErr e)
+    | .ok t =>
+      let y := match m.k with
+        | none => t.y
+        | some k => Arr.mapF (· / k) t.y
+      pure (rs, s!"(t {pArr pF t.x} {pArr pF y} {pArr pOI t.id})")
+  | .list [.sym "views", r] => do
+    let m ← getR rs r
+    pure (rs, s!"(vw {pL (m.getX.map pPV)} {pExL m.getAx} {pL (m.getY.map pPV)} {pExL m.getAy} {pL (m.getId.map pOI)} {pNs m.getInfo})")
+  | .list [.sym "mview", r, npts] => do
+    let m ← getR rs r
+    let np : Option (List Nat) ← match npts with
+      | .sym "none" => some none
+      | v => (v.asNats?).map some
+    pure (rs, s!"(mv {pView (m.wtsView np)} {pView (m.posView np)})")
+  | .list [.sym "callv", r, x, y, id, all, best, kflag, yint, xint] => do
+    let m ← getR rs r
+    let x ← parsePV x
+    let y ← parsePV y
+    let id ← parseOptInt id
+    let all ← all.asBool?
+    let best ← best.asInt?
+    let kflag ← kflag.asBool?
+    let yint ← parseOptNat yint
+    let xint ← parseOptNat xint
+    let rs ← setR rs r (m.call x y id)
+    match m.logOfB all best kflag x y id with
+    | .error e => pure (rs, s!"(cv {pErr e} none)")
+    | .ok lg =>
+      let out := match lg with
+        | none => "u"
+        | some w => s!"(w {w.step} {pOI w.id} {pPV w.y} {pPV w.x})"
+      match m.verbOf yint xint all best kflag x y id with
+      | .error e => pure (rs, s!"(cv {out} {pErr e})")
+      | .ok evs => pure (rs, s!"(cv {out} {pL (evs.map pEv)})")
   | .list [.sym "wraw", r] => do
     let m ← getR rs r
     let f := m.writeRaw
@@ -172,6 +259,96 @@ def runOps : Array M → List Val → List String → Option (List String)
     | none => none
     | some (rs', out) => runOps rs' ops (out :: acc)
 
+
+/-! ### heap programs (Model/MonitorHeap): registers hold monitor OBJECTS -/
+
+open MysticVerif.MonHeap in
+structure HState where
+  h : Heap Float
+  rs : Array (Obj Float)
+
+open MysticVerif.MonHeap in
+def hGet (st : HState) (v : Val) : Option (Obj Float) := do
+  let i ← v.asNat?
+  st.rs[i]?
+
+open MysticVerif.MonHeap in
+def hSet (st : HState) (v : Val) (h : Heap Float) (o : Obj Float) : Option HState := do
+  let i ← v.asNat?
+  if i < st.rs.size then some { h := h, rs := st.rs.set! i o } else none
+
+open MysticVerif.MonHeap in
+def hStep (st : HState) : Val → Option (HState × String)
+  | .list [.sym "new", r, k] => do
+    let k ← parseOptFloat k
+    let p := st.h.new k
+    pure (← hSet st r p.1 p.2, "u")
+  | .list [.sym "call", r, x, y, id] => do
+    let o ← hGet st r
+    pure ({ st with h := st.h.call o (← parsePV x) (← parsePV y) (← parseOptInt id) }, "u")
+  | .list [.sym "info", r, n] => do
+    let o ← hGet st r
+    pure ({ st with h := st.h.info o (← n.asNat?) }, "u")
+  | .list [.sym "slice", d, r, s, e, t] => do
+    let o ← hGet st r
+    let t := (← parseOptInt t).getD 1
+    if t = 0 then pure (st, pErr .value) else
+    let p := st.h.slice o (← parseOptInt s) (← parseOptInt e) t
+    pure (← hSet st d p.1 p.2, "u")
+  | .list [.sym "lidx", d, r, idx] => do
+    let o ← hGet st r
+    let idx ← idx.asInts?
+    match st.h.fancy o (fun n => resolveIdx n idx) with
+    | .ok p => pure (← hSet st d p.1 p.2, "u")
+    | .error e => pure (st, pErr e)
+  | .list [.sym "add", d, a, b] => do
+    let p := st.h.add (← hGet st a) (← hGet st b)
+    pure (← hSet st d p.1 p.2, "u")
+  | .list [.sym "extend", a, b] => do
+    pure ({ st with h := st.h.extend (← hGet st a) (← hGet st b) }, "u")
+  | .list [.sym "prepend", a, b] => do
+    pure ({ st with h := st.h.prepend (← hGet st a) (← hGet st b) }, "u")
+  | .list [.sym "min", r] => do
+    let o ← hGet st r
+    match (st.h.view o).min with
+    | .ok p => pure (st, pPair p)
+    | .error e => pure (st, pErr e)
+  | .list [.sym "get", r, i] => do
+    let o ← hGet st r
+    match (st.h.view o).getItem (← i.asInt?) with
+    | some p => pure (st, pPair p)
+    | none => pure (st, pErr .index)
+  | .list [.sym "handover", s, r, nw] => do
+    let p := st.h.handOver (← hGet st s) (some (← hGet st r)) (← nw.asBool?)
+    pure (← hSet st s p.1 p.2, "u")
+  | .list [.sym "handnull", s, nw] => do
+    let p := st.h.handOver (← hGet st s) none (← nw.asBool?)
+    pure (← hSet st s p.1 p.2, "u")
+  | .list [.sym "dump", r] => do
+    let o ← hGet st r
+    pure (st, pDump (st.h.view o))
+  | .list [.sym "probe", r, tag] => do       -- one more record and one more info line through register r; the lengths everyone shows
+    let o ← hGet st r
+    let t ← tag.asNat?
+    let f := Float.ofNat t
+    let h := (st.h.call o (.sc f) (.sc f) none).info o t
+    let st' := { st with h := h }
+    let lens := st'.rs.toList.map (fun q => s!"({(h.view q).len} {(h.view q).y.length} {(h.view q).id.length} {(h.view q).info.length})")
+    pure (st', pL lens)
+  | _ => none
+
+def hRun : HState → List Val → List String → Option (List String)
+  | _, [], acc => some acc.reverse
+  | st, op :: ops, acc =>
+    match hStep st op with
+    | none => none
+    | some (st', out) => hRun st' ops (out :: acc)
+
+open MysticVerif.MonHeap in
+def hInit : Nat → HState → HState
+  | 0, st => st
+  | n + 1, st => let p := st.h.new none; hInit n { h := p.1, rs := st.rs.push p.2 }
+
 def codes (v : Val) : Option (List Char) := do
   let l ← v.asNats?
   pure (l.map Char.ofNat)
@@ -194,6 +371,43 @@ def handle : Handler
     match runOps (Array.replicate nreg ({} : M)) ops [] with
     | some outs => return "ok r=" ++ pL outs
     | none => return "bad-op"
+  | .sym "fmt" :: args => Id.run do        -- raw_to_converge / raw_to_support on arbitrary recorded values
+    let some st := (kw? args "steps").bind Val.asList? | return "bad-op"
+    let some steps := st.mapM parsePV | return "bad-op"
+    let p := fun (r : Except Err (List (List (List Float)))) => match r with
+      | .ok v => pFsss v
+      | .error e => pErr e
+    return s!"ok conv={p (rawToConvergePV steps)} sup={p (rawToSupportPV steps)}"
+  | .sym "loghist" :: args => Id.run do    -- a LoggingMonitor over a call sequence, its file read by read_history
+    let some k := (kw? args "k").bind parseOptFloat | return "bad-op"
+    let some iv := (kw? args "iv").bind Val.asNat? | return "bad-op"
+    let some cs := (kw? args "calls").bind Val.asList? | return "bad-op"
+    let some calls := cs.mapM (fun c => match c with
+      | .list [x, y, id] => do pure ((← parsePV x), (← parsePV y), (← parseOptInt id))
+      | _ => none) | return "bad-op"
+    let rows := logRun ({ k := k, interval := (if iv = 0 then none else some iv) } : M) calls
+    let prow := fun (w : LogRec Float) => s!"(w {w.step} {pOI w.id} {pPV w.y} {pPV w.x})"
+    let hist := match readLogHistory rows with
+      | .ok (ids, p) => s!"(h {pIds (some ids)} {pFsss p})"
+      | .error e => pErr e
+    return s!"ok rows={pL (rows.map prow)} hist={hist}"
+  | .sym "pidsl" :: args => Id.run do      -- _process_ids(mon.id, n)
+    let some ids := (kw? args "ids").bind Val.asList? | return "bad-op"
+    let some ids := ids.mapM parseOptInt | return "bad-op"
+    let some n := (kw? args "n").bind Val.asNat? | return "bad-op"
+    return "ok s=" ++ pIds (some (processIdsL ids n))
+  | .sym "hprog" :: args => Id.run do
+    let some ops := (kw? args "ops").bind Val.asList? | return "bad-op"
+    let nreg := ((kw? args "nreg").bind Val.asNat?).getD 5
+    match hRun (hInit nreg { h := {}, rs := #[] }) ops [] with
+    | some outs => return "ok r=" ++ pL outs
+    | none => return "bad-op"
+  | .sym "cmon" :: args => Id.run do      -- CustomMonitor: `n` declared fields, every call a list of optional values
+    let some n := (kw? args "n").bind Val.asNat? | return "bad-op"
+    let some cs := (kw? args "calls").bind Val.asList? | return "bad-op"
+    let some calls := cs.mapM (fun c => c.asList?.bind (·.mapM parseOptPV)) | return "bad-op"
+    let c := (CMon.new n : CMon (PV Float)).calls calls
+    return "ok f=" ++ pL (c.fields.map (fun f => pL (f.map pPV)))
   | .sym "sliceidx" :: args => Id.run do   -- `range(*slice(s, e, t).indices(n))`
     let some n := (kw? args "n").bind Val.asNat? | return "bad-op"
     let some s := (kw? args "s").bind parseOptInt | return "bad-op"
